@@ -7,3 +7,7 @@ Definition unused_fid (p_in p_out : program) : N :=
   if program_eqb (unused_program p_in) p_out
   then (if program_eqb p_in p_out then 2%N else 0%N)
   else 1%N.
+Definition unused_open_fid (p_in p_out : program) : N :=
+  if program_eqb (unused_session_unit p_in) p_out
+  then (if program_eqb p_in p_out then 2%N else 0%N)
+  else 1%N.
